@@ -1,0 +1,29 @@
+// Copyright (C) 2024, Ava Labs, Inc. All rights reserved.
+// See the file LICENSE for licensing terms.
+
+//go:build verif
+
+// Package verifhook provides named observation points for runtime
+// verification. With the "verif" build tag a monitor may install a handler
+// that is invoked at every point (to yield, delay, record or crash).
+package verifhook
+
+import "sync/atomic"
+
+var handler atomic.Pointer[func(string)]
+
+// Set installs [f] as the handler of every point (nil removes it).
+func Set(f func(string)) {
+	if f == nil {
+		handler.Store(nil)
+		return
+	}
+	handler.Store(&f)
+}
+
+// Point marks a named observation point.
+func Point(name string) {
+	if h := handler.Load(); h != nil {
+		(*h)(name)
+	}
+}
